@@ -1,6 +1,7 @@
 //! Property-based testing / fuzzing harness deciding properties C01-C20 of facebook/akd.
 pub mod dirx;
 pub mod engine;
+pub mod forge;
 pub mod gen;
 pub mod model;
 pub mod props;
